@@ -97,6 +97,17 @@ theorem refused_valueerror (now : DateTime) (s : PropState) (op : Op) (e : Exc) 
       (∃ k v, op = .setItem k v ∧ (k < 0 ∨ k > s.values.length) ∧ e = .index) :=
   step_raised_class hs h
 
+/-- Input that holds no value is never refused by `p.values = …`: whenever the list
+    `_convert_value_input` builds is empty (for the inputs of the model these are the empty list,
+    tuple and str; since fix 646f02a the code takes the same exit for every other empty iterable
+    instead of reading `new_value[0]`), the call is accepted, the values are cleared and the dtype
+    is kept. -/
+theorem empty_input_clears (now : DateTime) (s : PropState) (inp : Inp)
+    (h : convertValueInput inp = []) :
+    step now s (.setValues inp) = ({ s with values := [] }, .ok) := by
+  simp only [step, setValues, h]
+  split <;> rfl
+
 /-! ## 3. Changing the dtype converts all values or changes nothing -/
 
 /-- `p.dtype = d`: either the call is accepted, the new dtype is stored (in lower case; `None`
